@@ -76,3 +76,6 @@ package common
 // Path normalisation is a regular-expression rewrite (`/+` -> `/`): its meaning is not decided here; it is a
 // deterministic function of its argument, the same one for both OpenAPI versions.
 //@ func RemoveDuplicateSlash pure trusted
+
+// ASCII lower-casing of the five parameter annotation names (facts about strings.ToLower, assumed)
+//@ axiom lowerParamNames: strings.ToLower("Path") == "path" && strings.ToLower("Query") == "query" && strings.ToLower("Header") == "header" && strings.ToLower("Body") == "body" && strings.ToLower("FormField") == "formfield"
